@@ -561,9 +561,28 @@ fn final_state(sys: &Sys) -> Value {
             let n = sys.world.restart(&id);
             let mut al = n.allowlist().unwrap_or_default();
             al.sort();
-            al
+            let slots: Vec<(ChannelId, Arc<lightning_signer::prelude::Mutex<ChannelSlot>>)> =
+                n.get_channels().iter().map(|(k, v)| (k.clone(), v.clone())).collect();
+            let mut chans = serde_json::Map::new();
+            for (cid, slot) in slots {
+                let g = slot.lock().unwrap();
+                let v = match &*g {
+                    ChannelSlot::Ready(c) => canonical(&serde_json::to_value(&c.enforcement_state).unwrap_or(json!("unserializable"))),
+                    ChannelSlot::Stub(_) => json!("stub"),
+                };
+                chans.insert(hex::encode(cid.as_slice()), v);
+            }
+            (al, Value::Object(chans))
         }));
-        m.insert("restored:allowlist".to_string(), match restored { Ok(al) => json!(al), Err(_) => json!("restart failed") });
+        match restored {
+            Ok((al, chans)) => {
+                m.insert("restored:allowlist".to_string(), json!(al));
+                m.insert("restored:channels".to_string(), chans);
+            }
+            Err(_) => {
+                m.insert("restored:allowlist".to_string(), json!("restart failed"));
+            }
+        }
     }
     Value::Object(m)
 }
@@ -648,6 +667,9 @@ const KINDS: &[&str] = &[
     "forget_channel_ready",
     "forget_channel_missing",
     "get_point_stub",
+    // channel requests on the id that setup_channel is making ready (the id is known before setup returns)
+    "sign_counterparty_commitment_on_stub",
+    "validate_holder_commitment_on_stub",
     "validate_holder_commitment",
     "validate_holder_commitment_and_revoke",
     "validate_holder_commitment_htlc",
@@ -830,6 +852,42 @@ fn make_req(sys: &mut Sys, kind: &str) -> Req {
         "forget_channel_missing" => {
             let id = ChannelId::new_from_peer_id_and_oid(&peer, 77);
             Box::new(move || node.forget_channel(&id).is_ok())
+        }
+        "sign_counterparty_commitment_on_stub" => {
+            // the first counterparty commitment of the channel that `setup_channel` sets up (refused while
+            // the slot is still a stub)
+            let id = sys.stub.clone();
+            let pt = cp_point(0);
+            Box::new(move || {
+                replied(
+                    node.with_channel(&id, |c| c.sign_counterparty_commitment_tx_phase2(&pt, 0, 1100, VALUE - 1000 - 100, 0, vec![], vec![])),
+                    |(sig, hs)| format!("counterparty commitment 0 signed {} ({} htlc sigs)", sig, hs.len()),
+                )
+            })
+        }
+        "validate_holder_commitment_on_stub" => {
+            // the counterparty's signature on holder commitment 0 is computed on an identical twin node on
+            // which the channel is already set up (everything is deterministic)
+            let id = sys.stub.clone();
+            let mut twin = build();
+            let setup_req = make_req(&mut twin, "setup_channel");
+            assert!(setup_req(), "twin setup_channel");
+            let mut setup = chan_setup();
+            setup.funding_outpoint = OutPoint { txid: lightning_signer::bitcoin::Txid::from_slice(&[7u8; 32]).unwrap(), vout: 1 };
+            let keys = make_test_counterparty_keys(&twin.nctx, &id, VALUE);
+            let tctx = TestChannelContext { channel_id: id.clone(), setup, counterparty_keys: keys };
+            let mut c0 = channel_initial_holder_commitment(&twin.nctx, &tctx);
+            let (sig, hs) = counterparty_sign_holder_commitment(&twin.nctx, &tctx, &mut c0);
+            drop(twin);
+            Box::new(move || {
+                replied(
+                    node.with_channel(&id, |c| {
+                        c.validate_holder_commitment_tx_phase2(0, 0, VALUE - 1000, 0, vec![], vec![], &sig, &hs)?;
+                        c.activate_initial_commitment()
+                    }),
+                    |p| format!("validated 0, next point {}", p),
+                )
+            })
         }
         "get_point_stub" => {
             let id = sys.stub.clone();
@@ -1593,6 +1651,23 @@ fn sweep(rec: &Arc<Rec>, args: &Args) {
             }
         }
     }
+    // setup_channel against the channel requests on the very id it is making ready: every pause point
+    // (the store accesses included), both orders; compared down to a node restored from the store
+    {
+        let setups: Vec<usize> = (0..acqs.len()).filter(|i| acqs[*i].0 == "setup_channel" || acqs[*i].0 == "h6_setup_channel").collect();
+        let on_id: Vec<usize> = (0..acqs.len()).filter(|i| acqs[*i].0.ends_with("_on_stub") || acqs[*i].0 == "get_point_stub").collect();
+        for &a in setups.iter() {
+            for &b in on_id.iter() {
+                for (pi, qi) in [(a, b), (b, a)] {
+                    for pt in points_all[pi].iter() {
+                        if seen.insert((pi, pt.clone(), qi)) {
+                            triples.push((pi, pt.clone(), qi));
+                        }
+                    }
+                }
+            }
+        }
+    }
     // allowlist edits on one node: every pause point (a point between the in-memory update and the store
     // write included, if there is one), both orders; compared down to a node restored from the store
     {
@@ -1775,7 +1850,8 @@ fn sweep(rec: &Arc<Rec>, args: &Args) {
     while idx < triples.len() {
         let (pi, pt, qi) = triples[idx].clone();
         let spec = vec![format!("{}{}", acqs[pi].0, pt), acqs[qi].0.clone()];
-        DEEP.store(acqs[pi].0.starts_with("allowlist_") || acqs[qi].0.starts_with("allowlist_"), std::sync::atomic::Ordering::SeqCst);
+        let deep = |n: &str| n.starts_with("allowlist_") || n.ends_with("_on_stub");
+        DEEP.store(deep(&acqs[pi].0) || deep(&acqs[qi].0), std::sync::atomic::Ordering::SeqCst);
         let (report, stuck) = race_once(rec, &spec, Duration::from_millis(3000));
         idx += 1;
         if stuck {
